@@ -5,14 +5,16 @@ import Proofs.C08.Refine
 import Proofs.C08.Sig
 import Proofs.C08.Sim
 import Proofs.C08.Tap
+import Proofs.C08.Verify
 import Model.C08.Verify
 import Generated.Script
 /-!
 # C08 — the script engine gives Bitcoin Core's verdict
 
-Property theorems only.  NO theorem here is about `Model/C08/Verify.lean` (VerifyScript, P2SH, witness v0, taproot
-dispatch, CLEANSTACK, malleation rules): that shell is tied by the `core.verify_input`, `core.script_tests` and
-`core.tx_vectors` streams only.  NO theorem here is about the tapscript loop of btclib (`engine/tapscript.py`) beyond its
+Property theorems only.  Of `Model/C08/Verify.lean` (VerifyScript, P2SH, witness v0, taproot dispatch, CLEANSTACK,
+malleation rules) only two helpers are inside a theorem -- `isPushOnly` (`validate_push_only_is_IsPushOnly`) and the annex
+rule `stripAnnex` (`taproot_get_annex_is_Cores_annex_rule`); the rest of that shell is tied by the `core.verify_input`,
+`core.script_tests` and `core.tx_vectors` streams only.  NO theorem here is about the tapscript loop of btclib (`engine/tapscript.py`) beyond its
 dispatch list (`switch_covers_the_table`): it has no btclib-shaped model; `core.execwit` / `core.verify_input` streams only.  `Btc.Script.Core.*` is the transcription of Bitcoin Core's interpreter (the
 specification); `Btc.Script.*` are the hand models of btclib's code (tied by correspondence);
 `Gen.Script.*` is regenerated from btclib's source on every run.
@@ -464,5 +466,31 @@ example : Core.evalWith (demoCx [0x00, 0x63, 0x7e, 0x68, 0x51]) [] = .error .DIS
 example : Core.evalWith (demoCx [0x00, 0x63, 0x6a, 0x68, 0x51]) [] = .ok [[1]] := by decide
 example : Core.evalWith (demoCx [0x51, 0x63]) [] = .error .UNBALANCED_CONDITIONAL := by decide
 example : Core.evalWith (demoCx [0x68]) [] = .error .UNBALANCED_CONDITIONAL := by decide
+
+/-! ## T6 — helpers of the VerifyScript shell (`btclib/script/engine/__init__.py`) -/
+
+/-- `validate_push_only` (the SIGPUSHONLY rule and BIP16's consensus rule on a P2SH scriptSig: a walk over
+    `op_code_spans`, refusing an op code above OP_16 and a last span that does not end at the script's end) returns
+    exactly when Core's `CScript::IsPushOnly` answers true, for every byte string. -/
+theorem validate_push_only_is_IsPushOnly (s : Bytes) : Btclib.validatePushOnly s = Core.isPushOnly s :=
+  VerifyShell.validatePushOnly_eq_isPushOnly s
+
+example : Btclib.validatePushOnly [0x51, 0x01, 0xaa, 0x4c, 0x01, 0xbb, 0x50, 0x60] = true := by decide
+example : Btclib.validatePushOnly [0x51, 0x61] = false := by decide        -- OP_NOP is an operator
+example : Btclib.validatePushOnly [0x51, 0x02, 0xaa] = false := by decide  -- the last push runs past the end
+example : Btclib.validatePushOnly [] = true := by decide
+
+/-- `taproot_get_annex` (on `witness.stack`, bottom first) leaves the stack Core's annex rule in the v1 arm of
+    `VerifyWitnessProgram` leaves (`Core.stripAnnex`, top first): the last element goes exactly when there are at
+    least two and it is non-empty with first byte 0x50.  (About the stack only; that the first component is that
+    element is not stated.) -/
+theorem taproot_get_annex_is_Cores_annex_rule (wire : List Bytes) :
+    (Btclib.taprootGetAnnex wire).2.reverse = Core.stripAnnex wire.reverse :=
+  VerifyShell.taprootGetAnnex_eq wire
+
+example : Btclib.taprootGetAnnex [[0x01], [0x50, 0x02]] = ([0x50, 0x02], [[0x01]]) := by decide
+example : Btclib.taprootGetAnnex [[0x50, 0x02]] = ([], [[0x50, 0x02]]) := by decide   -- a single element is no annex
+example : Btclib.taprootGetAnnex [[0x01], []] = ([], [[0x01], []]) := by decide       -- an empty element has no first byte
+
 
 end Props.C08
